@@ -200,3 +200,22 @@ Theorem C19_failing_field_store_blocks_setter_key_refuted :
     /\ (forall pc now, get_decrypt_cert pc false now c = Ok {| tc_pk := Some (rsa_signer 1); tc_certs := [cert] |}).
 Proof. exact failing_field_store_blocks_setter_key_ca93bf3. Qed.
 Print Assumptions C19_failing_field_store_blocks_setter_key_refuted.
+
+(* ---- tie to the source text: the key-selection functions of saml.go, re-translated from /repo on every run (GenFuncs.v),
+   are the model functions of Keys.v the theorems above are about; no nil dereference for any configuration ---- *)
+From V Require Import GenPrelude GenFuncs P_GenKeys.
+Theorem C19_source_key_getters_are_the_model : forall c now,
+  G_GetEncryptionKey c now = PVal (get_encryption_key c) /\
+  G_GetSigningKey c now = PVal (get_signing_key c) /\
+  G_getEncryptionCert c now = PVal (get_encryption_cert c) /\
+  G_GetEncryptionCertBytes c now = PVal (get_encryption_cert_bytes c) /\
+  G_getSigningCert c now = PVal (get_signing_cert c) /\
+  G_GetSigningCertBytes c now = PVal (get_signing_cert_bytes c) /\
+  G_getSignerCert c now = PVal (get_signer_cert c).
+Proof.
+  intros c now.
+  exact (conj (G_GetEncryptionKey_eq c now) (conj (G_GetSigningKey_eq c now) (conj (G_getEncryptionCert_eq c now)
+        (conj (G_GetEncryptionCertBytes_eq c now) (conj (G_getSigningCert_eq c now)
+        (conj (G_GetSigningCertBytes_eq c now) (G_getSignerCert_eq c now))))))).
+Qed.
+Print Assumptions C19_source_key_getters_are_the_model.
